@@ -398,3 +398,106 @@ def finish(prop, tier, seed, level, coverage, violations, t0, assumptions, notes
         json.dump(ev, f, indent=1)
     log("[%s %s] executions=%s violations=%d known=%d wall=%.1fs" % (prop, tier, coverage.get("traces_validated_against_impl", coverage.get("evaluations")), len(unlisted), len(listed), time.time() - t0))
     return rc
+
+
+# --------------------------------------------------------------------------- the standard check
+
+def model_and_schedules(wd, name, mk, label_rules, seed, cap, invariant_cfg, graph_cfg, maxlen=70, workers=8, timeout=900, dump_graph=True):
+    """mk(d, cfg_kind) must write MC.tla/MC.cfg into scratch dir d for cfg_kind in {"mc","graph"} and return the base name.
+    Runs the model check (invariants on) and, if dump_graph, the graph dump; returns (tlc result, label paths, notes)."""
+    notes = []
+    d = spec_scratch(wd, name + "-mc", invariant_cfg["specdirs"])
+    mk(d, "mc")
+    r = run_tlc(d, "MC", "MC.cfg", workers=workers, timeout=timeout)
+    shutil.rmtree(d, ignore_errors=True)
+    if not r["ok"]:
+        notes.append("model %s: %s %s" % (name, r["error"], r["violated"]))
+        log("[model] %s: NOT ok: %s %s" % (name, r["error"], r["violated"]))
+    paths = []
+    if dump_graph:
+        d = spec_scratch(wd, name + "-g", invariant_cfg["specdirs"])
+        mk(d, "graph")
+        dot = os.path.join(wd, name + ".dot")
+        g = run_tlc(d, "MC", "MC.cfg", workers=workers, timeout=timeout, dump=dot[:-4])
+        shutil.rmtree(d, ignore_errors=True)
+        if not os.path.exists(dot):
+            raise Inconclusive("no graph dump for %s: %s" % (name, g["out"][-2000:]))
+        init, edges, ne = parse_dot(dot)
+        os.remove(dot)
+        raw, cov, total = edge_cover(init, edges, maxlen=maxlen, cap=cap, seed=seed)
+        paths = map_labels(raw, label_rules)
+        log("[model] %s: %d distinct states, %d transitions generated; schedule graph %d edges -> %d schedules (%d/%d edges covered)" % (name, r["distinct"], r["states"], ne, len(paths), cov, total))
+    else:
+        log("[model] %s: %d distinct states, %d transitions generated ok=%s" % (name, r["distinct"], r["states"], r["ok"]))
+    return r, paths, notes
+
+
+def standard_check(prop, tier, seed, fam):
+    """fam: dict with keys
+         driver, specdirs, monitor, property_of (condition name -> property id),
+         models: f(wd, tier, seed) -> (states, transitions, schedules, notes, scenario_names)
+         n_random: {"quick": n, "thorough": n}
+         x_specs, p_monitor, assumptions (list), opt (str), deque (bool), extra_cov (dict)
+         modes: optional list of extra (tag, opt, n) harness runs (e.g. M2 bursts)
+    """
+    t0 = time.time()
+    wd = outdir(prop)
+    binp = build_harness(wd)
+    states, trans, scheds, notes, scen = fam["models"](wd, tier, seed)
+    n = fam["n_random"][tier]
+    traces, st = run_harness(binp, fam["driver"], wd, scheds=scheds, n=n, seed=seed, opt=fam.get("opt", ""))
+    for (tag, opt, nn) in fam.get("modes", {}).get(tier, []):
+        t2, s2 = run_harness(binp, fam["driver"], wd, scheds=None, n=nn, seed=seed, opt=opt, tag=tag)
+        traces += t2
+        for k in ("executions", "events", "steps", "bubble_deadlocks", "crashed_shards", "distinct_label_sequences"):
+            st[k] += s2[k]
+        st["samples"] += s2["samples"][:1]
+    if st["executions"] == 0:
+        raise Inconclusive("no executions were recorded")
+    viol, consumed, total, tstates = validate_traces(wd, fam["specdirs"], fam["monitor"], traces, deque=fam.get("deque", False))
+    if consumed != total:
+        raise Inconclusive("trace not fully consumed: %d of %d" % (consumed, total))
+    mine, harness_err = [], []
+    pof = fam["property_of"]
+    for v in viol:
+        for nm in v["names"]:
+            base = nm.split(":")[0]
+            p = pof.get(nm, pof.get(base))
+            rec = dict(v, name=nm, property=p)
+            if p == prop:
+                mine.append(rec)
+            elif p is None:
+                harness_err.append(rec)
+    if harness_err:
+        raise Inconclusive("harness/monitor protocol error (not a verdict): %s" % harness_err[:3])
+    if st["crashed_shards"]:
+        notes.append("%d harness shards crashed; their flushed events were still validated" % st["crashed_shards"])
+
+    def replay(v):
+        evs = extract_run(v["trace_file"], v["run"])
+        end = next((e for e in evs if e["ev"] == "end"), {})
+        return {"driver": fam["driver"], "monitor": fam["monitor"], "specdirs": fam["specdirs"], "opt": fam.get("opt", ""), "deque": fam.get("deque", False),
+                "scenario": end.get("scenario"), "labels": end.get("labels"), "events": evs}
+
+    cov = {
+        "states": states, "transitions": trans,
+        "traces_validated_against_impl": st["executions"],
+        "events_validated": total,
+        "schedules_from_tlc": st["schedules"], "schedules_followed_to_end": st["schedules_followed"],
+        "random_executions": st["executions"] - st["schedules"],
+        "distinct_label_sequences": st["distinct_label_sequences"],
+        "controller_steps": st["steps"],
+        "bubble_deadlocks": st["bubble_deadlocks"],
+        "x_specs": fam["x_specs"], "p_monitor": fam["p_monitor"], "scenarios": scen,
+        "model_notes": notes,
+        "samples": st["samples"][:3] or [{"note": "no sample"}],
+        "exhaustive": False,
+    }
+    cov.update(fam.get("extra_cov", {}))
+    if states == 0:
+        cov["states"] = cov["transitions"] = 0  # evidence then falls back to the generic keys
+        cov["evaluations"] = st["executions"]
+        cov["distinct_nontrivial"] = st["distinct_label_sequences"]
+    base_assume = ["TLC 1.8.0; CommunityModules Json/IOUtils", "testing/synctest durable-blocking detection (go1.26.8)",
+                   "harness built with go1.26.8, not the go1.23 toolchain of the pinned suite"]
+    return finish(prop, tier, seed, fam.get("level", "model_checking"), cov, mine, t0, base_assume + fam.get("assumptions", []), replay_builder=replay)
